@@ -54,6 +54,7 @@ def make_spec(st, idx, tier):
                 o["partial_row"] = True
                 n += 1
         spec["feed_stats"]["partial_rows"] = n
+    C.add_unrequested_gaps(st, spec)
     return spec
 
 
